@@ -541,6 +541,9 @@ func (in *interp) callSSA(caller *frame, callpos token.Pos, fn *ssa.Function, ar
 		in.x.mu.Lock()
 		in.x.stubsUsed[name+" => "+kind] = true
 		in.x.mu.Unlock()
+		if kind == "true" {
+			return true
+		}
 		return zero(fn.Signature.Results())
 	}
 	if fn.Name() == "init" && fn.Signature.Recv() == nil && fn.Parent() == nil && fn.Pkg != nil && fn.Synthetic == "package initializer" {
